@@ -214,6 +214,20 @@ func c06(c *Ctx) {
 				}
 			}
 			add("STRUCT.seq", fname, "SequenceNumber = the single NextSequenceNumber() call of this iteration", pos, seqOK && nCalls == 1, fmt.Sprintf("%d calls in the iteration", nCalls))
+			// and no number is drawn outside the per-packet loop (one drawn before it makes the sequencer run ahead of the
+			// packets emitted: the next call would skip a number)
+			outside := ""
+			for _, b := range fn.Blocks {
+				if inAnyLoop(b) {
+					continue
+				}
+				for _, in := range b.Instrs {
+					if call, ok := in.(*ssa.Call); ok && call.Call.IsInvoke() && call.Call.Method.Name() == "NextSequenceNumber" {
+						outside = p.Position(call.Pos())
+					}
+				}
+			}
+			add("STRUCT.seq", fname, "no sequence number is drawn outside the per-packet loop", pos, outside == "", "NextSequenceNumber() is also called at "+outside+", outside the loop that builds the packets")
 			// timestamp: entry value of p.Timestamp
 			tsOK := false
 			if ld0, ok := f[".Header.Timestamp"].(*ssa.UnOp); ok && isLoadOfRecvField(ld0, recv, "Timestamp") {
@@ -445,6 +459,8 @@ func c06(c *Ctx) {
 	if !litMoved {
 		r.Floor("packetizer rule instances", n, 18)
 	}
+	// the packetizer never panics on what a payloader may return (an empty list: nothing to mark or to stamp)
+	boundsFor(c, "C06", []*ssa.Function{pz, gp, ss})
 	// sequencer transition (shared with C07)
 	seqIface := p.NamedType("rtp", "Sequencer")
 	if seqIface != nil {
